@@ -688,7 +688,9 @@ def _op_table(directed):
     }
 
 
-BUILD_KINDS = ["add"] * 8 + ["del"] * 2 + ["node"] * 3 + ["delnode", "eattr", "nattr"]
+BUILD_KINDS = (["add"] * 8 + ["del"] * 2 + ["node"] * 3 + ["delnode", "eattr", "nattr"]
+               # incidence / hypergraph-level metadata and re-weighting also before the extraction
+               + ["incmeta", "incmeta", "hgattr", "setw"])
 MUT_KINDS = (["add"] * 3 + ["del"] * 2 + ["node"] * 2 + ["delnode"] + ["eattr"] * 3
              + ["nattr"] * 3 + ["edelattr", "ndelattr", "hgattr", "hgattr", "setw", "setw",
                                 "incmeta"])
